@@ -58,6 +58,10 @@ func (rp *RuleParser) ParseVariables(vars string) error {
 			// if next variable or end
 			// if regex we ignore |
 			// we wont support pipe for xpath, maybe later
+			if curr == 2 && (c != '/' || isEscaped) {
+				// end of the variables without the closing slash
+				return fmt.Errorf("unterminated regular expression in variable key: %q", vars)
+			}
 			if c != '|' {
 				// we don't want to miss the last character
 				if curr == 0 {
